@@ -8,13 +8,13 @@ cd "$WT" || exit 9
 git checkout -q -- xeofs
 git checkout -q --detach "${BASE:-$(git -C /repo rev-parse HEAD)}"    # same baseline as /repo (incl. later fix: commits) unless BASE is given
 echo "baseline $(git rev-parse --short HEAD)"
-echo "== clean: demo"; /venv/bin/python "$MD/demo.py" > /tmp/em_clean.out 2>&1; C=$?; tail -2 /tmp/em_clean.out
+echo "== clean: demo"; /venv/bin/python "$MD/demo.py" > /tmp/em_clean.$$.out 2>&1; C=$?; tail -2 /tmp/em_clean.$$.out
 git apply "$MD/patch.diff" || { echo "patch does not apply"; exit 9; }
 echo "== mutated: test suite"; /venv/bin/python -m pytest -q -p no:cacheprovider -n 8 --timeout=900 2>&1 | tail -1
-echo "== mutated: demo"; /venv/bin/python "$MD/demo.py" > /tmp/em_mut.out 2>&1; M=$?; tail -3 /tmp/em_mut.out
+echo "== mutated: demo"; /venv/bin/python "$MD/demo.py" > /tmp/em_mut.$$.out 2>&1; M=$?; tail -3 /tmp/em_mut.$$.out
 echo "demo exit clean=$C mutated=$M"
 echo "== mutated: ./check $PROP $TIER (VERIF_SEED=$SEED)"
-cd /verif && XEOFS_VERIF_REPO="$WT" VERIF_SEED="$SEED" ./check "$PROP" "$TIER" > /tmp/em_check.out 2>&1; R=$?
-grep -v "^Warning" /tmp/em_check.out | grep -v "^KNOWN" | cut -c1-300 | tail -12
+cd /verif && XEOFS_VERIF_REPO="$WT" VERIF_SEED="$SEED" ./check "$PROP" "$TIER" > /tmp/em_check.$$.out 2>&1; R=$?
+grep -v "^Warning" /tmp/em_check.$$.out | grep -v "^KNOWN" | cut -c1-300 | tail -12
 echo "check exit=$R"
 cd "$WT" && git checkout -q -- xeofs
